@@ -115,7 +115,15 @@ func genLabelled(r *Rand, mode int, org int64, o genOpts) (*Prog, []equDef) {
 			head++
 		}
 		out = append(out, p.Stmts[:head]...)
-		for _, d := range defs {
+		order := defs
+		if len(defs) > 1 && r.Chance(1, 3) {
+			// reverse order: every name an EQU body mentions is defined further down
+			order = nil
+			for i := len(defs) - 1; i >= 0; i-- {
+				order = append(order, defs[i])
+			}
+		}
+		for _, d := range order {
 			out = append(out, PStmt{K: "equ", Label: d.Name, Text: d.E.Render(r.Intn(3)), N: d.Val})
 		}
 		for i := head; i < len(p.Stmts); i++ {
